@@ -172,6 +172,14 @@ def shapes(tier):
         d2.append(["tuple", "bool", c])
         d2.append(["tuple", c, c])
     out += d2
+    # every tuple of arity 3..5 (thorough: 6) over {bool, byte, string}: bool runs interrupted by static
+    # elements between dynamic ones, dynamic elements at every position
+    small = ["bool", "byte", "string"]
+    for n in range(3, 7 if tier == "thorough" else 6):
+        for t in itertools.product(small, repeat=n):
+            out.append(["tuple"] + list(t))
+    out.append(["tuple", "string", "bool", "uint64", "bool", "bool", "byte", "bool", "string"])
+    out.append(["ntuple", "string", "bool", "byte", "bool", "string"])
     # de-duplicate
     seen, res = set(), []
     for s in out:
